@@ -51,6 +51,14 @@ pub fn fuzz_eval(target: &str, data: &[u8]) -> Option<crate::engine::CaseResult>
             let case = c02::case_from_bytes(data).ok()?;
             Some(crate::engine::fuzz::eval_case(|rec| c02::check_case(&case, rec)))
         }
+        "c04_gsub" => {
+            let case = c04::case_from_bytes(data).ok()?;
+            Some(crate::engine::fuzz::eval_case(|rec| c04::check_case(&case, rec)))
+        }
+        "c18_type2" => {
+            let case = c18::case_from_bytes(data).ok()?;
+            Some(crate::engine::fuzz::eval_case(|rec| c18::check_fuzz_case(&case, rec)))
+        }
         "c11_woff2" => {
             let case = c11::case_from_bytes(data).ok()?;
             Some(crate::engine::fuzz::eval_case(|rec| c11::check_case(&case, rec)))
@@ -69,6 +77,8 @@ pub fn fuzz_target_property(target: &str) -> Option<&'static str> {
         "c01_bytes" | "c01_ops" => Some("C01"),
         "c02_shape" => Some("C02"),
         "c05_tape" => Some("C05"),
+        "c04_gsub" => Some("C04"),
+        "c18_type2" => Some("C18"),
         "c11_woff2" => Some("C11"),
         "c16_glyf" => Some("C16"),
         _ => None,
